@@ -970,15 +970,16 @@ Proof.
   apply negb_true_iff, N.eqb_neq, H, He.
 Qed.
 
-Lemma wire_path_agrees_l tr c q strict d hasd blen r :
+Lemma wire_path_agrees_l tr c q strict d iad hasd blen r :
   let w := mk_wstate tr strict q (set_edns0 c q) in
   cfg_wf c -> client_ver q = 0 ->
   filter is_opt (m_ex d) = [] ->
+  iad = h_ad (m_hdr d) ->
   hasd = has_dnssec_aug d ->
-  write_wire tr c w d hasd None blen = Some r ->
+  write_wire tr c w d iad hasd None blen = Some r ->
   norm r = shape_reply tr c w d (blen + (if w_noedns w then 0 else opt_len (wire_opt c w None))).
 Proof.
-  intros w Hw Hv Hno Hd H. unfold write_wire in H.
+  intros w Hw Hv Hno Hia Hd H. subst iad. unfold write_wire in H.
   destruct (negb (w_do w) && hasd) eqn:E0; [discriminate|].
   (* step 1: the DNSSEC strip is the identity *)
   assert (H1 : (if w_do w then d else clear_dnssec d) = d).
